@@ -16,6 +16,9 @@ for f in sorted(glob.glob(f'{ROOT}/seeded/*/meta.json')):
     m=json.load(open(f))
     esc=lambda t: str(t).replace('|','\\|').replace('\n',' ')
     out.append(f"| {m['seed']} | {m['breaks_property']} | {esc(m['change'])} | {esc(m['needs_to_manifest'])} | **{esc(m['status'])}** — {esc(m['caught_by'])} |\n")
+metas=[json.load(open(f)) for f in sorted(glob.glob(f'{ROOT}/seeded/*/meta.json'))]
+n=len(metas); at_once=sum(1 for m in metas if m['status']=='caught'); later=sum(1 for m in metas if 'after-strengthening' in m['status']); other=n-at_once-later
+out.append(f"\nSummary: {n} seeded changes for {len(set(m['breaks_property'] for m in metas))} properties; {at_once} were caught by the checks as first built, {later} were missed at first and are caught after the general strengthening named in the row"+(f", {other} have another status (see row)" if other else "")+". Every one of them now makes `./check <id> quick` exit 1 with a VIOLATION whose key no known finding matches, and the checks exit 0 on the unchanged tree.\n")
 out.append('\nThe implementers\' own mutants (one or more per property, `/verif/mutants/*.diff`, each caught by its check at the quick tier) are listed in the header comment of each `props/src/cXX.rs`.\n')
 out.append('\n### 10.5 As-built sizes (quick tier, from the committed evidence files)\n\n| id | level | evaluations | distinct non-trivial | states | transitions | known-finding cases | wall s |\n|---|---|---|---|---|---|---|---|\n')
 for f in sorted(glob.glob(f'{ROOT}/evidence/C*.json')):
